@@ -1,7 +1,8 @@
-(* C11c -- the correspondence cases of C11: the cases of PARTS A-C (Model/C11.v) and the graph cases of PART D (Model/C11g.v) *)
+(* C11c -- the correspondence cases of C11: the cases of PARTS A-C (Model/C11.v), the graph cases of PART D (Model/C11g.v) and the
+   shared-argument cases of PART E (Model/C11s.v) *)
 From Coq Require Import ZArith List Bool Lia.
 From PAV Require Import Base.Res Base.Check.
-From PAV Require Export Model.C11 Model.C11g.
+From PAV Require Export Model.C11 Model.C11g Model.C11s.
 Import ListNotations.
 
 (* ---- PART D: a run on a real object graph.  [inst]: which graph of the library (Model/C11g.v [ginstance]); [table]: per node, the
@@ -29,7 +30,10 @@ Definition nat_mem (n : nat) (l : list nat) : bool := existsb (Nat.eqb n) l.
 
 Inductive case :=
 | KA (k : C11.case)
-| KGraph (inst : nat) (table : list arr) (reads : list nat) (out : list (arr * list nat * list nat)).
+| KGraph (inst : nat) (table : list arr) (reads : list nat) (out : list (arr * list nat * list nat))
+  (* PART E: a history of OverSamplingDataset arguments shared between dataset constructors and apply_over_sampling calls, run on
+     the real datasets: per step the record observed and the names whose record changed *)
+| KShare (ops : list sop) (out : list (obs * list (nat * arr))).
 
 Definition agree (k : case) : bool :=
   match k with
@@ -40,6 +44,7 @@ Definition agree (k : case) : bool :=
                            && list_eqb Nat.eqb (snd (fst m)) (snd (fst i))
                            && forallb (fun ch => nat_mem ch (snd m)) (snd i))
            (gtrace g (tbl_vf table) (ginit g (tbl_vf table)) reads) out
+  | KShare ops out => share_agree ops out
   end.
 (* the pure values: every read reports the value of its node (for a node that returns the array of another one: that node's
    value), and nothing that existed before a read changes.  Does not call the machine. *)
@@ -50,5 +55,6 @@ Definition spec_ok (k : case) : bool :=
       let g := ginstance inst in
       negb (is_nil g) &&
       all2 (fun n i => arr_eqb (gspec g (tbl_vf table) n) (fst (fst i)) && is_nil (snd i)) reads out
+  | KShare ops out => share_spec_ok ops out
   end.
 Definition check (k : case) : nat := verdict (agree k) (spec_ok k).
